@@ -27,6 +27,7 @@ type Case struct {
 	Build []fsx.Op `json:"build"`
 	Cwd   string   `json:"cwd,omitempty"`
 	Ops   []fsx.Op `json:"ops"`
+	As    string   `json:"as,omitempty"` // the queries are issued by this non-administrator (MemFS only)
 }
 
 var fsKinds = []string{"MemFS", "OrefaFS", "RoFS(MemFS)", "FailFS(MemFS)", "RoFS(OrefaFS)", "FailFS(OrefaFS)"}
@@ -117,6 +118,13 @@ func runCase(c *vt.Ctx, kt *kernel.Thread, cs Case) *vt.Deviation {
 			return nil
 		}
 	}
+	var ids map[string]world.Ident
+	if cs.As != "" {
+		if ids, err = w.SetupUsers(); err != nil {
+			c.Inconclusive("users: " + err.Error())
+			return nil
+		}
+	}
 	if cs.Cwd != "" {
 		if _, _, dev := w.Step("C14", fsx.Op{K: "Chdir", P: cs.Cwd}); dev != nil {
 			return nil
@@ -141,8 +149,17 @@ func runCase(c *vt.Ctx, kt *kernel.Thread, cs Case) *vt.Deviation {
 			}
 			continue
 		}
-		_, ok, dev := w.Step("C14", o)
+		var ok fsx.Out
+		var dev *vt.Deviation
+		if cs.As != "" {
+			_, ok, dev = w.StepAs("C14", o, ids[cs.As])
+		} else {
+			_, ok, dev = w.Step("C14", o)
+		}
 		if dev != nil {
+			if cs.As != "" {
+				dev.Fields["actor"] = "user"
+			}
 			if o.K == "Glob" {
 				dev.Fields["pattern"] = patternClass(o.P)
 			}
@@ -255,6 +272,56 @@ func TestCheck(t *testing.T) {
 		}
 	}
 	c.SetExhaustive(true)
+
+	// directories a non-administrator cannot list or search: Glob skips them silently and keeps
+	// what it found elsewhere, WalkDir reports them to the callback and goes on, ReadDir fails -
+	// as the kernel makes package path/filepath and os do for a process with that uid
+	{
+		dirs := []string{"/w/t/a", "/w/t/c", "/w/t/e"}
+		modes := []uint32{0o755, 0o700, 0o311, 0o000, 0o444, 0o711}
+		upats := []string{"/w/t/*/x*", "/w/t/*", "/w/t/?/*", "/w/t/[ac]/x1", "/w/t/*/*", "/w/t/a/x1", "/w/t/c/*", "/w/t/*/s/*", "/w/t/e/s/y"}
+		n := 0
+		for _, ma := range modes {
+			for _, mc := range modes {
+				for _, me := range modes {
+					n++
+					if n%c.NShards != c.Shard || (!c.Thorough() && n%3 != 0) {
+						continue
+					}
+					cs := Case{FS: "MemFS", As: "u1", Build: []fsx.Op{{K: "Mkdir", P: "/w/t", Perm: 0o755}}}
+					for i, d := range dirs {
+						cs.Build = append(cs.Build, fsx.Op{K: "Mkdir", P: d, Perm: 0o755}, fsx.Op{K: "WriteFile", P: d + fmt.Sprintf("/x%d", i+1), Data: "x", Perm: 0o644},
+							fsx.Op{K: "Mkdir", P: d + "/s", Perm: 0o755}, fsx.Op{K: "WriteFile", P: d + "/s/y", Data: "y", Perm: 0o644})
+					}
+					for i, m := range []uint32{ma, mc, me} {
+						cs.Build = append(cs.Build, fsx.Op{K: "Chmod", P: dirs[i], Perm: m})
+					}
+					for _, p := range upats {
+						cs.Ops = append(cs.Ops, fsx.Op{K: "Glob", P: p})
+					}
+					for act := 0; act <= 3; act++ {
+						for _, at := range []int{0, 1, 2, 4} {
+							cs.Ops = append(cs.Ops, fsx.Op{K: "WalkDir", P: "/w/t", Act: act, At: at})
+							if act == 0 {
+								break
+							}
+						}
+					}
+					for _, d := range dirs {
+						cs.Ops = append(cs.Ops, fsx.Op{K: "ReadDir", P: d}, fsx.Op{K: "ReadDir", P: d + "/s"}, fsx.Op{K: "WalkDir", P: d})
+					}
+					if dev := runCase(c, kt, cs); dev != nil {
+						c.Report(dev, cs)
+					}
+					if ma != 0o755 || mc != 0o755 || me != 0o755 {
+						c.NonTrivial(vt.Hash64("unreadable", fmt.Sprint(ma, mc, me)))
+					}
+					c.Label("unreadable-dir-case")
+				}
+			}
+		}
+		c.Sample("unreadable", map[string]any{"as": "u1 (not the owner)", "dirs": dirs, "modes": "each of 0755 0700 0311 0000 0444 0711", "patterns": upats})
+	}
 
 	// random trees and pattern grammar
 	atoms := []string{"a", "b", "c", "*", "?", "[ab]", "[^a]", "[a-c]", `\*`, `\b`, "[", "]", "-", "^", "x"}
